@@ -99,6 +99,8 @@ pub struct Ctl {
     /// global event counter: index of the next fs point (for "abort at the n-th point overall")
     pub total: u32,
     pub abort_at_total: Option<u32>,
+    /// the last rename of a current file that the creation table followed
+    pub last_rename: Option<(PathBuf, PathBuf)>,
     /// marker access() emitted for strace cross-checks
     pub emit_marker: bool,
 }
@@ -171,6 +173,7 @@ const FS_POINTS: &[&str] = &[
     "flush",
     "reopen",
     "rename_current",
+    "rename_back",
     "cleanup_list",
     "cleanup_remove",
     "gz_create",
@@ -249,12 +252,23 @@ fn handler(name: &str, p1: Option<&Path>, p2: Option<&Path>) -> std::io::Result<
                             }
                         }
                     }
+                    // the current file gets its name back after a failed open: undo the last move
+                    "rename_back" => {
+                        if let (Some(cur), Some((src, dst))) = (p2, c.last_rename.take()) {
+                            if src == cur && !cur.exists() {
+                                if let Some(t) = c.creation.remove(&dst) {
+                                    c.creation.insert(src, t);
+                                }
+                            }
+                        }
+                    }
                     "rename_current" => {
                         if let (Some(src), Some(dst)) = (p1, p2) {
                             if src.exists() {
                                 if let Some(t) = c.creation.remove(src) {
                                     c.creation.insert(dst.to_path_buf(), t);
                                 }
+                                c.last_rename = Some((src.to_path_buf(), dst.to_path_buf()));
                             }
                         }
                     }
